@@ -4,6 +4,7 @@ import (
 	"context"
 	"fmt"
 	"hash/fnv"
+	apierrors "k8s.io/apimachinery/pkg/api/errors"
 	apimeta "k8s.io/apimachinery/pkg/api/meta"
 	"k8s.io/apimachinery/pkg/types"
 	"regexp"
@@ -98,10 +99,32 @@ func (r *recorder) RecordError(f bool, a api.Attributes) {
 type fakeNS struct {
 	labels map[string]string
 	err    bool
+	kind   int                // flavour of the failure
+	cancel context.CancelFunc // the request's cancel function (flavours that let the request run out of time during the lookup)
 }
+
+// nsErrKinds: ways a namespace lookup fails; the property does not distinguish them
+var nsErrKinds = []string{"plain", "notFound", "deadlineExceeded", "apiTimeout", "serverTimeout", "requestCancelledDuringLookup", "canceled"}
 
 func (f fakeNS) GetNamespace(ctx context.Context, name string) (*corev1.Namespace, error) {
 	if f.err {
+		switch nsErrKinds[f.kind%len(nsErrKinds)] {
+		case "notFound":
+			return nil, apierrors.NewNotFound(schema.GroupResource{Resource: "namespaces"}, name)
+		case "deadlineExceeded":
+			return nil, fmt.Errorf("get namespace %q: %w", name, context.DeadlineExceeded)
+		case "apiTimeout":
+			return nil, apierrors.NewTimeoutError("the lookup timed out", 1)
+		case "serverTimeout":
+			return nil, apierrors.NewServerTimeout(schema.GroupResource{Resource: "namespaces"}, "get", 1)
+		case "requestCancelledDuringLookup":
+			if f.cancel != nil {
+				f.cancel()
+			}
+			return nil, ctx.Err()
+		case "canceled":
+			return nil, context.Canceled
+		}
 		return nil, fmt.Errorf("boom")
 	}
 	return &corev1.Namespace{ObjectMeta: metav1.ObjectMeta{Name: name, Labels: f.labels}}, nil
@@ -174,6 +197,8 @@ type AdmitCase struct {
 	Obj, Old            ObjSpec
 	NSLabels            map[string]string
 	NSErr               bool
+	NSErrKind           int                // index into nsErrKinds
+	cancelRequest       context.CancelFunc // set by runGo
 	Pods                []*corev1.Pod
 	ListErr             bool
 	ExpireAfter         int           // -1 none
@@ -382,7 +407,7 @@ func newAdmission(a *AdmitCase, ev policy.Evaluator, rec metrics.Recorder, liste
 		Configuration: &admissionapi.PodSecurityConfiguration{Defaults: a.Defaults,
 			Exemptions: admissionapi.PodSecurityExemptions{Namespaces: a.ExNS, Usernames: a.ExUsers, RuntimeClasses: a.ExRC}},
 		Evaluator: ev, Metrics: rec, PodSpecExtractor: admission.DefaultPodSpecExtractor{},
-		NamespaceGetter: fakeNS{labels: a.NSLabels, err: a.NSErr}, PodLister: lister,
+		NamespaceGetter: fakeNS{labels: a.NSLabels, err: a.NSErr, kind: a.NSErrKind, cancel: a.cancelRequest}, PodLister: lister,
 	}
 	if err := adm.CompleteConfiguration(); err != nil {
 		panic(err)
@@ -408,7 +433,6 @@ func (a *AdmitCase) runGo() (out AdmitOut) {
 	ev := &evWrap{syn: a.Syn, salt: a.Salt, real: realEvaluator, cancelAt: a.ExpireAfter}
 	rec := &recorder{}
 	lister := &fakeLister{pods: a.Pods, err: a.ListErr}
-	adm := newAdmission(a, ev, rec, lister)
 	ctx := context.Background()
 	var cancel context.CancelFunc
 	if a.Remaining != 0 {
@@ -417,6 +441,8 @@ func (a *AdmitCase) runGo() (out AdmitOut) {
 		ctx, cancel = context.WithCancel(ctx)
 	}
 	defer cancel()
+	a.cancelRequest = cancel
+	adm := newAdmission(a, ev, rec, lister)
 	ev.cancel = cancel
 	defer func() {
 		if r := recover(); r != nil {
